@@ -154,6 +154,7 @@ type FnCtx struct {
 	houdiniObs     []*houdiniOb
 	pendingHavoc   []string
 	finalized      bool
+	modRefs        map[string][]string
 	usedLemmaCalls map[string]bool
 	nclosures      int
 	cellCache      map[string]*ssa.Alloc
@@ -178,6 +179,7 @@ type FnCtx struct {
 }
 
 type fnOpts struct {
+	frames   bool // write-frame sweep (C05/C06)
 	spec     *specialisation
 	houdini  bool
 	props    []string // properties to tag sweep obligations with
